@@ -400,7 +400,7 @@ func init() {
 		}
 		// os.File.ReadAt reports a short read (end of file) as an error
 		if m.Branch(m.S.ULt(n, m.S.Const(64, uint64(buf.Len)))) {
-			return Tuple{n, m.mkError(ConcStr("EOF", m.S), nil)}
+			return Tuple{n, m.ioEOF()}
 		}
 		return Tuple{n, Iface{}}
 	})
@@ -502,7 +502,41 @@ func init() {
 				return Tuple{m.newOSFile(&osFile{name: "dirfile", rdata: e.dirContents[k].B}), Iface{}}
 			}
 		}
+		// a file of the kernel model (concrete path)
+		if name, ok := p.Concrete(); ok {
+			if b, found := m.K.FileBytes(name); found {
+				return Tuple{m.newOSFile(&osFile{name: name, path: name, rdata: b}), Iface{}}
+			}
+		}
 		return Tuple{Ptr{}, m.mkError(ConcStr("open: no such file or directory", m.S), nil)}
+	})
+	// sequential reads of a model file: up to len(buf) bytes, then (0, io.EOF)
+	reg("(*os.File).Read", func(m *Machine, fn *ssa.Function, a []Value) Value {
+		f := m.fileOf(a[0].(Ptr))
+		buf := a[1].(Slice)
+		if f.isK {
+			n, e := m.K.sysRead(f.kfd, buf)
+			if isNilIface(e) && buf.Len > 0 && n.IsConst() && n.Val == 0 {
+				return Tuple{n, m.ioEOF()}
+			}
+			return Tuple{n, e}
+		}
+		if f.rpos >= len(f.rdata) {
+			if buf.Len == 0 {
+				return Tuple{m.S.Const(64, 0), Iface{}}
+			}
+			return Tuple{m.S.Const(64, 0), m.ioEOF()}
+		}
+		n := len(f.rdata) - f.rpos
+		if n > buf.Len {
+			n = buf.Len
+		}
+		arr := (*m.cell(buf.Base)).(*ArrayV)
+		for i := 0; i < n; i++ {
+			arr.E[buf.Off+i] = f.rdata[f.rpos+i]
+		}
+		f.rpos += n
+		return Tuple{m.S.Const(64, uint64(n)), Iface{}}
 	})
 	reg("os.Create", func(m *Machine, fn *ssa.Function, a []Value) Value {
 		name := concStrArg(m, a[0], "Create path")
@@ -637,8 +671,7 @@ func init() {
 
 	// bufio.Reader over a model file: ReadLine hands out at most the buffer size (4096 unless
 	// NewReaderSize says otherwise) per call and sets isPrefix when the line continues; ReadString
-	// reads through the delimiter. The end of the file is reported with an error value (the value
-	// is not io.EOF itself: programs comparing with io.EOF are outside the model).
+	// reads through the delimiter. The end of the file is reported with an error value (io.EOF).
 	newReader := func(size int) func(m *Machine, fn *ssa.Function, a []Value) Value {
 		return func(m *Machine, fn *ssa.Function, a []Value) Value {
 			t := fn.Signature.Results().At(0).Type().(*types.Pointer).Elem()
@@ -675,7 +708,7 @@ func init() {
 		sc := m.env().scanners[a[0].(Ptr).Obj]
 		f := sc.f
 		if f.rpos >= len(f.rdata) {
-			return Tuple{Slice{}, m.S.False, m.mkError(ConcStr("EOF", m.S), nil)}
+			return Tuple{Slice{}, m.S.False, m.ioEOF()}
 		}
 		nl := m.S.Const(8, '\n')
 		end := f.rpos
@@ -706,7 +739,7 @@ func init() {
 		if end >= len(f.rdata) {
 			rest := Str{append([]*Term(nil), f.rdata[f.rpos:]...)}
 			f.rpos = len(f.rdata)
-			return Tuple{rest, m.mkError(ConcStr("EOF", m.S), nil)}
+			return Tuple{rest, m.ioEOF()}
 		}
 		line := Str{append([]*Term(nil), f.rdata[f.rpos:end+1]...)}
 		f.rpos = end + 1
@@ -803,3 +836,21 @@ func init() {
 
 // isNilIface: the interface value is nil (no dynamic type).
 func isNilIface(i Iface) bool { return i.T == nil && i.V == nil }
+
+// ioEOF returns the value of io.EOF (the io package initialiser is run on first use).
+func (m *Machine) ioEOF() Iface {
+	ip := m.P.Pkgs["io"]
+	if ip == nil {
+		return m.mkError(ConcStr("EOF", m.S), nil)
+	}
+	m.RunInit(ip)
+	g, ok := ip.Members["EOF"].(*ssa.Global)
+	if !ok {
+		return m.mkError(ConcStr("EOF", m.S), nil)
+	}
+	v, ok := m.load(Ptr{Obj: m.global(g)}).(Iface)
+	if !ok || isNilIface(v) {
+		return m.mkError(ConcStr("EOF", m.S), nil)
+	}
+	return v
+}
